@@ -2,3 +2,6 @@ package verifrt
 
 // NumSites is overwritten by the instrumenter in the scratch copy.
 const NumSites = 0
+
+// AtomicSiteIDs is overwritten by the instrumenter in the scratch copy.
+var AtomicSiteIDs = []uint32{}
